@@ -22,7 +22,7 @@ var c09Chars = []string{"a", "é", " ", "$", `\`, "0", "n", "p", "{", "}", "\n\t
 
 var c09Types = []string{"", "ascii", "braille", "custom"}
 
-const c09Origins = 8
+const c09Origins = 11
 
 func terminatorOf(typ string) string {
 	switch typ {
@@ -173,8 +173,14 @@ func runC09(tier string) int {
 			src, label, sw = "text T {\n\tporyswitch(V) {\n\t\tA: \"other\"\n\t\t_: "+lit+"\n\t}\n}\n", "T", map[string]string{"V": "B"}
 		case 6: // brace form, selected directly
 			src, label, sw = "text T {\n\tporyswitch(V) {\n\t\t_ { \"other\" }\n\t\tA { "+lit+" }\n\t}\n}\n", "T", map[string]string{"V": "A"}
-		default: // inline text inside a control construct, second argument
+		case 7: // inline text inside a control construct, second argument
 			src, label = "script S {\n\tif (flag(F)) {\n\t\tmsgbox(X, "+lit+")\n\t}\n}\n", "S_Text_0"
+		case 8: // after a typed inline text in the same command
+			src, label = "script S {\n\tmsgbox(ascii\"first arg\", "+lit+")\n}\n", "S_Text_1"
+		case 9: // before a typed inline text in the same command
+			src, label = "script S {\n\tmsgbox("+lit+", custom\"second arg\", X)\n}\n", "S_Text_0"
+		default: // after a typed inline text in the previous command and a typed text statement
+			src, label = "text T0 {\n\tbraille\"first arg\"\n}\nscript S {\n\ta(custom\"first arg\")\n\tb("+lit+")\n}\n", "S_Text_1"
 		}
 		res := comp.Compile(src, comp.Opts{FontPath: fpath, Switches: sw})
 		r.Add("evaluations", 1)
@@ -248,5 +254,5 @@ func runC09(tier string) int {
 		"contents whose terminator would straddle two parts are not generated (the property can be read both ways there)",
 		"for format() origins the source lines are the lines of the exported FormatText's result (its content is C07's business)")
 	return r.Finish(r.Get("evaluations"), r.Get("nontrivial"),
-		"every content of total length <= L over {a, é, space, $, \\, 0, n, p, {, }, newline-inside-literal} split into 1-3 literal parts x 2 layouts (same line / one part per line) x 4 string types x 8 origins (text statement, inline argument, format() of each, poryswitch case selected directly / through '_' / brace form, argument inside an if); non-trivial = >= 2 parts and a string type")
+		"every content of total length <= L over {a, é, space, $, \\, 0, n, p, {, }, newline-inside-literal} split into 1-3 literal parts x 2 layouts (same line / one part per line) x 4 string types x 11 origins (text statement, inline argument, format() of each, poryswitch case selected directly / through '_' / brace form, argument inside an if, after / before a typed inline text in the same command, after typed texts elsewhere); non-trivial = >= 2 parts and a string type")
 }
